@@ -711,17 +711,33 @@ def r5(F, rep):
                 if fc.cls != cls:
                     continue
                 rc = X.const_locals(fc)
-                for x in fc.walk():
-                    if x["k"] == "VarDecl" and x.get("n") == "coeff" and X.kids(x):
-                        inside = any(a["k"] == "ForStmt" and a["c"][1] is not None and cont in X.key(a["c"][1], fc) for a in fc.ancestors(x))
-                        if not inside:
-                            continue
-                        fs = product_factors(X.kids(x)[0], fc, {k: v for k, v in rc.items() if k != x.get("d")})
-                        Kc = sorted(k for k in (X.re_strip(X.key(y, fc, rc)) for y in fs) if "cvc_coeff" not in k and "sup_coeff" not in k and "sup_np" not in k)
-                        m += 1
-                        rep.add("C01-R5", "%s|%s|coeff|collect_gradients" % (cls, cont), fc.loc(x),
-                                "%s: value adds %s * %s[i]->value(); collect_gradients weights with %s" % (cls, " * ".join(K), cont, " * ".join(Kc) or "1"),
-                                K == Kc, func=fc.q)
+                if len(fc.params) < 2:
+                    continue
+                outd = fc.params[1]["d"]      # the array of collected atomic gradients
+                done = False
+                for w, t in lvalue_writes(fc):
+                    if done or w.get("op") != "+=" or not X.mentions(t, lambda y: y["k"] == "DeclRefExpr" and y.get("d") == outd):
+                        continue
+                    inside = any(a["k"] == "ForStmt" and a["c"][1] is not None and cont in X.key(a["c"][1], fc) for a in fc.ancestors(w))
+                    if not inside:
+                        continue
+                    rhs = X.kids(w)[1] if w["k"] == "CompoundAssignOperator" else X.call_args(w)[1]
+                    fs = product_factors(rhs, fc, rc)
+                    inits = {v["d"]: X.kids(v)[0] for v in fc.walk() if v["k"] == "VarDecl" and "d" in v and X.kids(v)}
+
+                    def chain_factor(y):
+                        """a local that holds this component's own chain-rule factor in the variable (sup_coeff * n * x^(n-1))"""
+                        y = X.strip(y)
+                        return y["k"] == "DeclRefExpr" and y.get("d") in inits and "sup_coeff" in X.key(inits[y["d"]], fc)
+                    fs = [y for y in fs if not chain_factor(y)]
+                    ks = [X.re_strip(X.key(y, fc, rc)) for y in fs]
+                    # drop the atomic gradient itself and the chain-rule factor of this component in its variable
+                    Kc = sorted(k for k in ks if ".grad" not in k and "sup_coeff" not in k and "sup_np" not in k)
+                    m += 1
+                    done = True
+                    rep.add("C01-R5", "%s|%s|coeff|collect_gradients" % (cls, cont), fc.loc(w),
+                            "%s: value adds %s * %s[i]->value(); collect_gradients weights the sub-gradients with %s" % (cls, " * ".join(K), cont, " * ".join(Kc) or "1"),
+                            K == Kc, func=fc.q)
     if m < 2:
         raise AnalysisBroken("only %d linear-coefficient comparisons bound (alpha's hydrogen-bond term expected)" % m)
 
